@@ -4,7 +4,7 @@ import ast
 import z3
 
 from .core import Arr, Opaque, PyRaise, Unsupported, builtin_exc, is_sym, ite, rv, simp, sort_kind, sym_floor, to_real, to_z3
-from .lib import model, method, MODELS, METHODS, FLOAT_DT, EXP, LOG, SQRT, Lib, sum_term, flat_view
+from .lib import coerce_elem, model, method, MODELS, METHODS, FLOAT_DT, EXP, LOG, SQRT, Lib, sum_term, flat_view
 
 R, I_ = z3.RealSort(), z3.IntSort()
 PCDF = z3.Function('poisson_cdf', I_, R, R)          # P(N <= k), N ~ Poisson(mu)
@@ -88,7 +88,11 @@ def _masked_where(L, cond, a, copy=True):
     a = L.as_arr(a)
     cond = L.as_arr(cond)
     L._bshape(a, cond)
-    return MArr(a.snapshot(), cond.snapshot())
+    r = MArr(a.snapshot(), cond.snapshot())
+    fb = getattr(a, 'flat_backing', None)
+    if fb is not None:
+        r.flat_backing = fb.snapshot()        # same storage order: the data below the mask are the original values
+    return r
 
 
 def wrap_masked(L):
@@ -227,3 +231,61 @@ def _np_poisson(L, lam=1.0, size=None):
     L.ctx.fact(v >= 0)
     rng_advance(L)
     return v
+
+
+# ---------------------------------------------------------------- more numpy.ma / numpy.unique
+@model('numpy.ma.filled')
+def _ma_filled(L, a, fill_value=None):
+    """data with the masked entries replaced by fill_value"""
+    if not isinstance(a, MArr):
+        return L.as_arr(a)
+    if fill_value is None:
+        raise Unsupported('numpy.ma.filled without fill value')
+    f, mf = a.f, a.mask.f
+    fv = fill_value
+    r = Arr(a.shape, lambda ix: ite(to_z3(mf(ix)), coerce_elem(fv, a.dtype), f(ix)), a.dtype)
+    fb = getattr(a, 'flat_backing', None)
+    mb = getattr(a.mask, 'flat_backing', None)
+    if fb is not None and mb is not None:
+        r.flat_backing = Arr(fb.shape, lambda ix: ite(to_z3(mb.f(ix)), coerce_elem(fv, a.dtype), fb.f(ix)), a.dtype)
+    return r
+
+
+def _marr_getattr(L, a, name):
+    if name == 'data':
+        # the data below the mask: for a masked_where() result these are the original values
+        d = Arr(a.shape, a.f, a.dtype)
+        for k in ('flat_backing',):
+            if hasattr(a, k):
+                setattr(d, k, getattr(a, k))
+        return d
+    if name == 'mask':
+        return a.mask
+    return None
+
+
+_orig_arr_getattr = Lib.arr_getattr
+
+
+def _arr_getattr(self, a, name):
+    if isinstance(a, MArr):
+        r = _marr_getattr(self, a, name)
+        if r is not None:
+            return r
+    return _orig_arr_getattr(self, a, name)
+
+
+Lib.arr_getattr = _arr_getattr
+
+
+@model('numpy.unique')
+def _np_unique(L, a, return_index=False, return_inverse=False, return_counts=False, axis=None, **kw):
+    """only the case the evaluations use without counts: the index array of numpy.nonzero() (a 1-tuple), whose entries are
+    distinct and ascending by construction - unique() is then the identity on it"""
+    if return_index or return_inverse or return_counts or axis is not None or kw:
+        raise Unsupported('numpy.unique with options')
+    if isinstance(a, tuple) and len(a) == 1:
+        a = a[0]
+    if isinstance(a, Arr) and a.ndim == 1 and a.ghost.get('selection') is not None and a.ghost.get('index_selection'):
+        return a
+    raise Unsupported('numpy.unique of a general array')
